@@ -389,8 +389,10 @@ pub(crate) fn check_concat(lhs: &crate::variable::Variable, rhs: &crate::variabl
 }
 
 /// H5: refuses absurdly long `[v; n]` arrays.
+/// (A length beyond isize::MAX cannot be a length anybody asked for: it is a negative int cast to
+/// usize. That is left to the code under test, which fails at once without allocating.)
 pub(crate) fn check_len(len: usize) {
-    if len > MAX_LEN.with(|l| l.get()) {
+    if len > MAX_LEN.with(|l| l.get()) && len <= isize::MAX as usize {
         std::panic::panic_any(Abort::Length);
     }
 }
